@@ -497,3 +497,24 @@ def all_defs_text(fn_node: ast.AST, name: str) -> str:
         elif isinstance(s, ast.AnnAssign) and isinstance(s.target, ast.Name) and s.target.id == name and s.value is not None:
             out.append(norm(s.value))
     return " || ".join(out)
+
+
+def conjuncts(test: ast.AST, truth: bool) -> list[tuple[str, bool]]:
+    """Atomic (text, polarity) facts that hold when `test` evaluated to `truth` (splits `a and b` / `not (a or b)`)."""
+    if isinstance(test, ast.UnaryOp) and isinstance(test.op, ast.Not):
+        return conjuncts(test.operand, not truth)
+    if isinstance(test, ast.BoolOp) and isinstance(test.op, ast.And if truth else ast.Or):
+        out: list[tuple[str, bool]] = []
+        for v in test.values:
+            out += conjuncts(v, truth)
+        return out
+    t, pol = cond(test)
+    return [(t, pol == truth)]
+
+
+def guard_facts(cfg, defs: Defs, node: int) -> list[tuple[str, bool]]:
+    """Like `guards`, with conjunctions split into their atomic facts."""
+    out: list[tuple[str, bool]] = []
+    for test, truth in cfg.controls(node):
+        out += conjuncts(defs.resolve(test), truth)
+    return out
